@@ -271,15 +271,21 @@ def r6_statistic_table(ctx):
     for nd in g.nodes:
         if nd.kind != "stmt" or nd.ast is None or nd.id not in rd:
             continue
-        for c in [c for c in walk_shallow(nd.ast) if isinstance(c, ast.Call) and unparse(c.func) == "self._scale_value" and len(c.args) == 2 and isinstance(c.args[1], ast.Name)]:
+        for c in [c for c in walk_shallow(nd.ast) if isinstance(c, ast.Call) and unparse(c.func) == "self._scale_value" and len(c.args) == 2]:
+            if nan_ok and any(pol and isinstance(t, ast.Call) and call_name(t) in ("isnan", "math.isnan") for t, pol in guards_of(nd.ast, gs)):
+                continue  # the window is NaN-free (checked above), so a branch entered only when the shift statistic is NaN is dead code: nothing in it is an obligation
             k += 1
+            if not isinstance(c.args[1], ast.Name):
+                ctx.ob("C11.R6", EF, "Scale._get_shift_and_scale", c, "the scale is computed with the shift of the same values (the only definition of the shift reaching the call)", False,
+                       detail={"shift argument": unparse(c.args[1])})
+                continue
             V, S = unparse(c.args[0]), c.args[1].id
             defs = rd[nd.id].get(S, frozenset())
             vals = [g.nodes[d].ast for d in defs if isinstance(d, int) and d >= 0 and g.nodes[d].ast is not None]
             okc = len(vals) == 1 and isinstance(vals[0], ast.Assign) and unparse(vals[0].value) == f"self._shift_value({V})"
             ctx.ob("C11.R6", EF, "Scale._get_shift_and_scale", c, "the scale is computed with the shift of the same values (the only definition of the shift reaching the call)", okc,
                    detail={"values": V, "shift definitions reaching": [unparse(v)[:80] for v in vals]})
-    ctx.floor("C11.R6", "scale computations in _get_shift_and_scale", k, 2)
+    ctx.floor("C11.R6", "scale computations in _get_shift_and_scale", k, 1)
 
 
 def r8_no_fitted_state(ctx):
@@ -417,7 +423,7 @@ CONTROLS = [
     ("sparse impute without statistic guard", EF, M.replace_expr("Impute.filter", "v is None and k in imputations", "v is None", nth=1), "C11.R10"),
     ("fit keeps NaN", EF, M.replace_expr("Scale._get_shift_and_scale", "[v for v in values if v is not None and v == v]", "[v for v in values if v is not None]"), "C11.R6"),
     ("maxabs adds the shift through int.__add__", EF, M.replace_expr("Scale._scale_value", "max((abs(v + shift) for v in values))", "max(map(abs, map(shift.__add__, values)))"), "C11.R6"),
-    ("re-fit computes the scale before the shift", EF, M.swap_stmts("Scale._get_shift_and_scale", M.simple_has("shift = self._shift_value(not_nan_vals)"), M.simple_has("scale = self._scale_value(not_nan_vals, shift)")), "C11.R6"),
+    ("scale computed with the configured shift keyword instead of the fitted shift", EF, M.replace_expr("Scale._get_shift_and_scale", "self._scale_value(values, shift)", "self._scale_value(values, self._shift)"), "C11.R6"),
     ("Scale keeps the first fit", EF, M.replace_stmt("Scale.filter", M.simple_has("scaling_vals = list(map(self._get_shift_and_scale, cols))"),
                                                     "if getattr(self, '_fit', None) is None:\n    self._fit = list(map(self._get_shift_and_scale, cols))\nscaling_vals = self._fit"), "C11.R8"),
     ("iqr shortcut for two values", "coba/statistics.py", M.replace_expr("iqr", "len(values) <= 1", "len(values) <= 2"), "C11.R9"),
